@@ -62,41 +62,41 @@ impl HttpServer {
         s.write_all(req.as_bytes()).map_err(|e| e.to_string())?;
         let mut buf = vec![];
         s.read_to_end(&mut buf).map_err(|e| e.to_string())?;
-        let text = String::from_utf8_lossy(&buf).to_string();
-        match text.find("\r\n\r\n") {
+        match buf.windows(4).position(|w| w == b"\r\n\r\n") {
             Some(i) => {
-                let head = &text[..i];
-                let body = &text[i + 4..];
+                let head = String::from_utf8_lossy(&buf[..i]).to_string();
+                let body = &buf[i + 4..];
                 if head.to_ascii_lowercase().contains("transfer-encoding: chunked") {
                     Ok(dechunk(body))
                 } else {
-                    Ok(body.to_string())
+                    Ok(String::from_utf8_lossy(body).to_string())
                 }
             }
-            None => Err(format!("malformed http response: {:?}", text)),
+            None => Err(format!("malformed http response: {:?}", String::from_utf8_lossy(&buf))),
         }
     }
 }
 
-fn dechunk(b: &str) -> String {
-    let mut out = String::new();
+fn dechunk(b: &[u8]) -> String {
+    // chunk sizes count bytes: work on the bytes, decode at the end
+    let mut out: Vec<u8> = vec![];
     let mut rest = b;
     loop {
-        let i = match rest.find("\r\n") {
+        let i = match rest.windows(2).position(|w| w == b"\r\n") {
             Some(i) => i,
             None => break,
         };
-        let n = usize::from_str_radix(rest[..i].trim(), 16).unwrap_or(0);
+        let n = usize::from_str_radix(String::from_utf8_lossy(&rest[..i]).trim(), 16).unwrap_or(0);
         if n == 0 {
             break;
         }
         let start = i + 2;
         if start + n > rest.len() {
-            out.push_str(&rest[start..]);
+            out.extend_from_slice(&rest[start..]);
             break;
         }
-        out.push_str(&rest[start..start + n]);
+        out.extend_from_slice(&rest[start..start + n]);
         rest = &rest[(start + n + 2).min(rest.len())..];
     }
-    out
+    String::from_utf8_lossy(&out).to_string()
 }
